@@ -606,7 +606,13 @@ fn c01_oracle(sc: &Scenario, ex: &Execution, info: &mut CaseInfo) -> Vec<Finding
     f.extend(orc::add_stream(&h, 0));
     f.extend(keep(orc::verdict_findings(&h, false), &["Panic"]));
     f.extend(orc::interpreter_violations(&h, &["HandBackMismatch"]));
-    f.extend(keep(note_stuck(&h, info), &[]));
+    // a consumer that waits for ever although a value destined to its stream is accepted and
+    // undelivered: the stream keeps receiving and the value is never delivered to it
+    let stuck = note_stuck(&h, info);
+    f.extend(stuck.into_iter().filter(|x| {
+        matches!(x.kind.as_str(), "BlockedReceiver" | "TryRecvNeverSucceeds" | "ParkedStreamTask")
+            || x.facts.get("full_and_empty_at_once") == Some(&serde_json::Value::Bool(true))
+    }));
     f
 }
 
